@@ -64,6 +64,8 @@ const (
 	OutNilContent         // result with nil Content slice
 	OutUnencodable        // result whose structured content cannot be encoded (NaN)
 	OutUnencChan          // result whose structured content holds a channel
+	OutCtxDeadline        // handler returns (nil, error) whose chain holds context.DeadlineExceeded (a deadline of its own ran out)
+	OutCtxCanceled        // handler returns (nil, error) whose chain holds context.Canceled (it gave up a sub-task of its own)
 	NumOutcomes
 )
 
@@ -312,6 +314,10 @@ func (w *World) Register(r Registrar, reg RegSpec) {
 			switch ts.Outcome {
 			case OutGoErr:
 				return nil, errors.New(ts.ErrMsg)
+			case OutCtxDeadline:
+				return nil, fmt.Errorf("%s: %w", ts.ErrMsg, context.DeadlineExceeded)
+			case OutCtxCanceled:
+				return nil, fmt.Errorf("%s: %w", ts.ErrMsg, context.Canceled)
 			case OutIsError:
 				return mcp.NewErrorResult(ts.ErrMsg), nil
 			case OutNilContent:
